@@ -62,6 +62,19 @@ def check(ctx):
                "scheduler's resource table - never ids, relations, owners or custom attributes", floor=8)
     ctx.guarded(o, lambda o: frame(ctx, o, eff))
 
+    o = ctx.ob('passes_write_only_the_copy', 'R9a',
+               "the passes recurse over dependency links only into tasks that report the WBS being scheduled (the clone): links to "
+               "tasks outside the source stay attached to those same outside tasks, and an outside task lists the caller's ORIGINAL "
+               "members - a pass that follows every link schedules (writes) them: the input does not stay as it was "
+               "(shared rule with C14.recursion_stays_in_wbs)", floor=4)
+
+    def stays(o):
+        from . import sched
+        from .sched import BOTH
+        for S in BOTH:
+            sched.recursion_stays_in_wbs(ctx, o, S)
+    ctx.guarded(o, stays)
+
     o = ctx.ob('every_task_dated', 'R7',
                "every normal exit of either pass leaves start and end assigned; the pass is run for every root and recursively for every child", floor=8)
 
